@@ -460,7 +460,8 @@ def find_group_cohorts(
     if expected_groups is None:
         nlabels = labels.max() + 1
     else:
-        nlabels = expected_groups[-1] + 1
+        # an empty index: no group at all (e.g. every label is missing)
+        nlabels = expected_groups[-1] + 1 if len(expected_groups) > 0 else 0
 
     # 1. Single chunk, blockwise always
     if nchunks == 1:
@@ -896,7 +897,11 @@ def _factorize_single(by, expect, *, sort: bool, reindex: bool) -> tuple[pd.Inde
         idx = flat.copy()
         found_groups = cast(pd.Index, expect)
         # TODO: fix by using masked integers
-        idx[idx > expect[-1]] = -1
+        if len(expect) > 0:
+            idx[idx > expect[-1]] = -1
+        else:
+            # no group at all (e.g. every label is missing)
+            idx[...] = -1
 
     elif isinstance(expect, pd.IntervalIndex):
         if expect.closed == "both":
